@@ -28,7 +28,8 @@ import aurel.reading as rd
 from harness import etgen
 from harness.common import Sub, scratch_dir
 from harness.etcases import (K, build_spec, check_result, describe_mismatch,
-                             expected_keys, quiet, resolve_request, sim_case,
+                             expected_keys, quiet, request_pool,
+                             resolve_request, sim_case,
                              source_restart)
 
 PROPERTY = "C12"
@@ -58,7 +59,8 @@ ASSUMPTIONS = [
 ]
 BUDGET_S = {"quick": 85, "thorough": 1050}
 
-TENSOR_BIASED = ["admbase-shift", "admbase-shift", "admbase-metric",
+TENSOR_BIASED = ["admbase-dtshift", "admbase-dtlapse",
+                 "admbase-shift", "admbase-shift", "admbase-metric",
                  "hydrobase-vel", "ml_bssn-ml_mom", "admbase-lapse",
                  "hydrobase-rho", "mythorn-mypair", "admbase-curv",
                  "weylscal4-psi4r_group"]
@@ -70,7 +72,14 @@ op_strategy = st.fixed_dictionaries(dict(
     itsel=st.lists(K, min_size=1, max_size=5),
     rlsel=K, rsel=K,
     split=st.sampled_from([True, True, True, False]),
-    extra=st.sampled_from([[], [], [], [1000]])))
+    extra=st.sampled_from([[], [], [], [1000]]),
+    # request a time derivative together with (and before / after) the
+    # variable it derives from, when the simulation wrote both: their ET
+    # names contain one another (alp/dtalp, betax/dtbetax)
+    dtpair=st.sampled_from([0, 0, 0, 1, 2])))
+
+DT_PAIRS = [("admbase-dtlapse", "admbase-lapse"),
+            ("admbase-dtshift", "admbase-shift")]
 
 
 @st.composite
@@ -78,6 +87,12 @@ def history(draw, max_ops):
     sim = draw(sim_case(["1", "4-8"], nlev_max=2, nmax=7,
                         group_pool=TENSOR_BIASED, with_request=False))
     sim["grouped"] = draw(st.sampled_from([True, True, False]))
+    if draw(st.integers(0, 3)) == 0:
+        pair = list(draw(st.sampled_from(DT_PAIRS)))
+        if draw(st.booleans()):
+            pair.reverse()
+        sim["groups"] = pair + [g for g in sim["groups"]
+                                if g not in pair][:2]
     ops = draw(st.lists(op_strategy, min_size=3, max_size=max_ops))
     return dict(sim=sim, ops=ops)
 
@@ -89,6 +104,21 @@ def op_request(op, spec):
                 rl=op["rlsel"] % nlev,
                 restart=choices[op["rsel"] % (nres + 2)],
                 extra=op["extra"])
+
+
+def with_dtpair(kw, op, spec):
+    """vars of the request with a (time derivative, variable) pair added in
+    front, in the drawn order."""
+    if not op.get("dtpair") or not kw["vars"]:
+        return kw
+    pool = request_pool(spec["groups"])
+    pairs = [("dt" + a, a) for a in pool if "dt" + a in pool]
+    if not pairs:
+        return kw
+    p = list(pairs[(len(kw["vars"]) + len(kw["it"])) % len(pairs)])
+    if op["dtpair"] == 2:
+        p.reverse()
+    return dict(kw, vars=p + [v for v in kw["vars"] if v not in p])
 
 
 RX_IT = re.compile(r"it_(\d+)\.hdf5$")
@@ -153,6 +183,8 @@ def run_history(case, note):
     note.cls("layout=" + ("grouped" if spec["grouped"] else "ungrouped"),
              f"levels={len(spec['levels'])}",
              f"restarts={len(spec['restarts'])}", f"ops={len(case['ops'])}")
+    if any(rs.get("regrid") for rs in spec["restarts"]):
+        note.cls("level-regridded-during-restart")
     d = scratch_dir()
     partial_seen = False
     try:
@@ -162,6 +194,10 @@ def run_history(case, note):
         for k, op in enumerate(case["ops"]):
             rq = op_request(op, spec)
             kw, expected_its = resolve_request(sim, spec, rq)
+            kw2 = with_dtpair(kw, op, spec)
+            if kw2 is not kw:
+                kw = kw2
+                note.cls("dt-and-base-variable-in-one-request")
             rl, restart = kw["rl"], kw["restart"]
             split = bool(op["split"])
             # the (restart, component, it, rl) cells this request touches
@@ -294,6 +330,19 @@ GENERIC = [
                   lens=(2, 2), overlaps=(1, 0)),
          ops=[_op([3], [2]), _op([0], [2, 0]), _op([0], [0, 1, 2]),
               _op([], [0, 1, 2, 3]), _op([0, 7], [4, 3, 2, 1, 0])]),
+    # a variable and its time derivative (ET names contain one another) in
+    # one request, in both orders, uncached and cached, both file layouts
+    dict(sim=_sim(False, ["admbase-dtlapse", "admbase-lapse"], False, ONE,
+                  lens=(3,), overlaps=(0,)),
+         ops=[dict(_op([0], [0, 1], split=False), dtpair=1),
+              dict(_op([1], [0, 1, 2]), dtpair=1),
+              dict(_op([0], [0, 1, 2, 3], split=False), dtpair=2),
+              dict(_op([0], [0, 1, 2, 3]), dtpair=1)]),
+    dict(sim=_sim(True, ["admbase-shift", "admbase-dtshift"], True, RECT8,
+                  lens=(2,), overlaps=(0,)),
+         ops=[dict(_op([1], [0, 1], split=False), dtpair=1),
+              dict(_op([0], [0, 1, 2]), dtpair=1),
+              dict(_op([2], [0, 1, 2], split=False), dtpair=2)]),
 ]
 
 
